@@ -635,6 +635,22 @@ func (vc *VC) specCall(x CCall, env *SpecEnv) Term {
 		a := args()
 		vc.ss.declare(&sortInfo{Name: "str$lt", Kind: "const", Decl: strLtDecl})
 		return Term{fmt.Sprintf("(gs.lt %s %s)", a[0].S, a[1].S), SBool, nil}
+	case "fnvInit":
+		// the abstract state of a fresh fnv.New64() hasher (see hasher.go)
+		vc.declareHasher()
+		return Term{"fnv.init", sHState, nil}
+	case "fnvStr", "fnvU64":
+		a := args()
+		vc.declareHasher()
+		fn := "fnv.writeStr"
+		if x.Fn == "fnvU64" {
+			fn = "fnv.writeU64"
+		}
+		return Term{fmt.Sprintf("(%s %s %s)", fn, a[0].S, a[1].S), sHState, nil}
+	case "fnvSum":
+		a := args()
+		vc.declareHasher()
+		return Term{fmt.Sprintf("(fnv.sum %s)", a[0].S), SInt, nil}
 	case "sprintf":
 		if f, ok := x.Args[0].(CStr); ok {
 			var as []Term
